@@ -7,6 +7,7 @@ verdict must agree."""
 import json
 import logging
 import os
+import sys
 import shutil
 import tempfile
 import time
@@ -322,6 +323,10 @@ class Monitor:
         left by one session cannot hide a history dependence in the next"""
         self.world(wi).objs.clear()
         self.kept = []
+        # module-level state must not outlive a session either: the package is imported afresh (module bodies re-executed), so
+        # a value memoised at module level in one order of calls cannot make another order look consistent
+        for name in [n for n in sys.modules if n == "PyMatterSim" or n.startswith("PyMatterSim.")]:
+            del sys.modules[name]
         hist = []
         for (n, i) in order:
             self.call(wi, n, i, hist)
